@@ -2,7 +2,8 @@
 
 Decides the gatekeeping clauses: a callable is registered as *under test* only under
 `add_to_test`, which at every call site is `<element>.__module__ == root_module_name`;
-registration of functions and methods is dominated by the visibility test and by the
+registration of functions and methods is dominated by the visibility test (interpreted over
+names x visibility x owner against Python's own mangling, lambdas under their assigned name) and by the
 configured ignore lists (read afresh from the configuration, never cached); a method
 counts as the class's own only when its defining class is positively resolved to that class.
 Which members `inspect` enumerates for arbitrary modules is not decided.
@@ -47,6 +48,69 @@ def _reads_config(mod, fn, seen=None) -> list[str]:
         if isinstance(n, ast.Call) and isinstance(n.func, ast.Name) and n.func.id in mod.functions:
             out += _reads_config(mod, mod.functions[n.func.id], seen)
     return out
+
+
+def _visibility_table(ctx, repo) -> None:
+    """Interpret __should_skip_by_visibility over names x visibility x (function | method of a class)
+    against Python's own naming rules (the mangled attribute names come from real classes)."""
+    import enum
+    import inspect
+
+    from sa.engine import peval
+
+    class Vis(enum.Enum):
+        PUBLIC = 1
+        PROTECTED = 2
+        ALL = 3
+
+    class A_B:
+        def __secret(self): ...
+        def _prot(self): ...
+        def _load__cfg(self): ...
+        def pub(self): ...
+        def __call__(self): ...
+
+    class _Under(A_B):
+        def __own(self): ...
+
+    class Plain9:
+        def __x(self): ...
+        def _Other__looks_mangled(self): ...
+
+    def private(n):
+        return n.startswith("__") and not n.endswith("__")
+
+    def protected(n):
+        return n.startswith("_") and not n.startswith("__")
+
+    cases = [(n, None, False) for n in ("public", "_prot", "__priv", "__dunder__", "_load__config", "_Foo__helper", "_", "x__y")]
+    for cls in (A_B, _Under, Plain9):
+        for attr, fn in inspect.getmembers(cls, inspect.isfunction):
+            cases.append((attr, cls, attr != fn.__name__ and private(fn.__name__)))
+    sv = repo.func(M, "__should_skip_by_visibility")
+    ctx.analysed(sv)
+    mod = repo.module(M)
+    for vis in Vis:
+        for add_to_test in (True, False):
+            for name, owner, mangled in cases:
+                if not add_to_test or vis is Vis.PUBLIC:
+                    want = private(name) or protected(name)
+                elif vis is Vis.ALL:
+                    want = False
+                else:
+                    want = private(name) or mangled
+                label = f"[{vis.name} add_to_test={add_to_test}] {owner.__name__ + '.' if owner else ''}{name}"
+                it = peval.Interp(resolver=peval.repo_resolver(repo), native_types=(type, re.Pattern), externs={"inspect.getmro": inspect.getmro},
+                                  consts={"config.configuration.element_visibility": vis, "ElementVisibility.ALL": Vis.ALL, "ElementVisibility.PROTECTED": Vis.PROTECTED, "ElementVisibility.PUBLIC": Vis.PUBLIC})
+                kwargs = {"add_to_test": add_to_test}
+                if owner is not None and any(a.arg == "owner" for a in sv.args.kwonlyargs + sv.args.args):
+                    kwargs["owner"] = owner
+                try:
+                    got = bool(it.run_function(sv, [name], kwargs, mod))
+                except (peval.Undecided, peval.Raises) as exc:
+                    ctx.undecide("C27.visibility", sv, f"{label}: {exc}")
+                    continue
+                ctx.check("C27.visibility", sv, got == want, f"{label}: skipped={got}, by the naming rules (private = two leading underscores and no trailing pair, protected = one leading underscore, mangled = a class-private name as Python stores it on the class) it is {want}: the callable is " + ("missing from" if got else "wrongly part of") + " the callables under test", what=label, stmt=label)
 
 
 def check(ctx) -> None:
@@ -153,30 +217,20 @@ def check(ctx) -> None:
         ok = len(r) == 1 and isinstance(r[0].value, ast.Compare) and isinstance(r[0].value.ops[0], ast.In) and "ignore_methods" in norm(r[0].value.comparators[0])
         ctx.check("C27.ignored", im, ok, "__is_ignored_method is no longer a membership test in config.configuration.ignore_methods", what="__is_ignored_method: qualified name in ignore_methods")
 
-    # ------------------------------------------------------------------ C27.visibility table
-    sv = repo.func(M, "__should_skip_by_visibility")
-    ctx.analysed(sv)
-    first = next((s for s in sv.body if isinstance(s, ast.If)), None)
-    PRIV_PROT = {"__is_private(name) or __is_protected(name)", "__is_protected(name) or __is_private(name)"}
-    ok = first is not None and norm(first.test) == "not add_to_test" and isinstance(first.body[-1], ast.Return) and norm(first.body[-1].value) in PRIV_PROT
-    ctx.check("C27.visibility", first or sv, ok, "for elements outside the module under test, non-public names are no longer always skipped", what="dependencies: private or protected skipped")
-    mt = next((s for s in sv.body if isinstance(s, ast.Match)), None)
-    if mt is None or norm(mt.subject) != "config.configuration.element_visibility":
-        ctx.undecide("C27.visibility", sv, "visibility table is not a match over element_visibility")
-    else:
-        table = {}
-        for c in mt.cases:
-            pat = norm(c.pattern).split(".")[-1]
-            ret = next((norm(s.value) for s in c.body if isinstance(s, ast.Return)), None)
-            table[pat] = ret
-        ctx.check("C27.visibility", mt, table.get("ALL") == "False", f"ElementVisibility.ALL skips `{table.get('ALL')}`", what="ALL: nothing skipped", stmt="[ALL]")
-        ctx.check("C27.visibility", mt, table.get("PROTECTED") in ("__is_private(name) or __is_name_mangled(name)", "__is_name_mangled(name) or __is_private(name)"), f"ElementVisibility.PROTECTED skips `{table.get('PROTECTED')}`", what="PROTECTED: private and name-mangled skipped", stmt="[PROTECTED]")
-        ctx.check("C27.visibility", mt, table.get("_") in PRIV_PROT, f"default visibility skips `{table.get('_')}`", what="PUBLIC: private and protected skipped", stmt="[PUBLIC]")
-    for qn, want in (("__is_protected", "method_name.startswith('_') and (not method_name.startswith('__'))"), ("__is_private", "method_name.startswith('__') and (not method_name.endswith('__'))")):
-        f = repo.func(M, qn)
-        r = [n for n in own_nodes(f) if isinstance(n, ast.Return)]
-        got = norm(r[0].value) if r else ""
-        ctx.check("C27.visibility", f, got.replace("(not ", "not ").replace("'))", "')").replace("(", "").replace(")", "") == want.replace("(not ", "not ").replace("'))", "')").replace("(", "").replace(")", ""), f"{qn} is `{got}`", what=f"{qn} naming rule")
+    # ------------------------------------------------------------------ C27.visibility table (interpreted)
+    _visibility_table(ctx, repo)
+    # the name a callable is registered under may only be replaced by a name that passed the visibility test
+    af = repo.func(M, "__analyse_function")
+    cfg = CFG(af)
+    for st in [n for n in own_nodes(af) if isinstance(n, ast.Assign) and norm(n.targets[0]) == "func_name"]:
+        new_name = norm(st.value)
+        p = unguarded_path(cfg, cfg.nodes_of(st), _neg_call(lambda e, new_name=new_name: norm(e.func) == "__should_skip_by_visibility" and e.args and norm(e.args[0]) == new_name and any(k.arg == "add_to_test" and norm(k.value) == "add_to_test" for k in e.keywords)))
+        ctx.paths += 1
+        ctx.check("C27.visibility", st, p is None, f"__analyse_function registers the callable under `{new_name}` (a lambda's assigned name) without the visibility test on that name having passed: `_hidden = lambda x: x` is under test at PUBLIC", what=f"renamed callable `{new_name}` passed the visibility test", path=cfg.describe_path(p) if p else None, stmt=f"[renamed] {new_name}")
+    am_ = repo.func(M, "__analyse_method")
+    vcalls = [c for c in own_nodes(am_) if isinstance(c, ast.Call) and norm(c.func) == "__should_skip_by_visibility"]
+    ok = bool(vcalls) and all(any(k.arg == "owner" and "raw_type" in norm(k.value) for k in c.keywords) for c in vcalls)
+    ctx.check("C27.visibility", vcalls[0] if vcalls else am_, ok, "__analyse_method does not hand the analysed class to the visibility test: a mangled name cannot be told from a protected one", what="__analyse_method passes the class as owner", stmt="[owner]")
 
     # ------------------------------------------------------------------ C27.owner
     dc = repo.func(M, "__is_method_defined_in_class")
